@@ -300,4 +300,93 @@ theorem toNullish_sound (c x y e : E) (h : toNullish c x y = .yes e) : eval H e 
         · rw [if_neg hcb] at h; cases h
       · rw [if_neg hu] at h; cases h
 
+/-! ## `optimizeCondExpr` -/
+
+/-- every branch of `optimizeCondExpr` (guarded: call merging only below a pure condition) keeps the behaviour -/
+theorem optCondN_sound (v20 : Bool) (c x y : E) (p : Prec) (r : E) (h : optCondN true v20 c x y p = some r) :
+    eval H r = eval H (.cond c x y) := by
+  unfold optCondN at h
+  cases ht : isTruthy c with
+  | some b =>
+    have hp := isTruthy_sound (H := H) c b ht
+    rw [cond_of_pure c x y b hp]
+    cases b <;> simp [ht] at h <;> subst h <;> rfl
+  | none =>
+    simp only [ht] at h
+    by_cases h1 : orSelfGuard c x y = true
+    · rw [if_pos h1] at h
+      injection h with h; subst h
+      simp only [orSelfGuard, Bool.and_eq_true] at h1
+      exact orSelf_sound c x y _ h1.1.1
+    · rw [if_neg h1] at h
+      by_cases h2 : andSelfGuard c x y = true
+      · rw [if_pos h2] at h
+        injection h with h; subst h
+        simp only [andSelfGuard, Bool.and_eq_true] at h2
+        exact andSelf_sound c x y _ h2.1.1
+      · rw [if_neg h2] at h
+        by_cases h3 : isEqualExpr x y = true
+        · rw [if_pos h3] at h
+          injection h with h; subst h
+          exact sameBranches_sound c x y p h3
+        · rw [if_neg h3] at h
+          cases hn : (if v20 = true then toNullish c x y else Nullish.no) with
+          | unmodelled => simp [hn] at h
+          | yes e =>
+            simp only [hn] at h
+            injection h with h; subst h
+            cases v20 with
+            | true => exact toNullish_sound c x y _ (by simpa using hn)
+            | false => simp at hn
+          | no =>
+            simp only [hn] at h
+            cases hm : callMerge c x y with
+            | some e =>
+              simp only [hm] at h
+              by_cases hs : hasSideEffects c = true
+              · simp [hs] at h
+              · simp only [hs, Bool.true_and, Bool.false_eq_true, if_false] at h
+                injection h with h; subst h
+                exact callMerge_sound c x y _ (by simpa using hs) hm
+            | none =>
+              simp only [hm] at h
+              injection h with h; subst h
+              exact optCondTail_sound c x y p
+
+theorem optCond_sound (v20 : Bool) (c x y : E) (p : Prec) (r : E) (h : optCond true v20 c x y p = some r) :
+    eval H r = eval H (.cond c x y) := by
+  unfold optCond at h
+  rw [optCondN_sound v20 _ _ _ p r h, condNormalize_sound]
+
+/-- the guarded function agrees with the model wherever it is defined -/
+theorem optCond_guarded_agrees (v20 : Bool) (c x y : E) (p : Prec) (r : E) (h : optCond true v20 c x y p = some r) :
+    optCond false v20 c x y p = some r := by
+  unfold optCond optCondN at h ⊢
+  generalize (condNormalize c x y).1 = c1 at h ⊢
+  generalize (condNormalize c x y).2.1 = x1 at h ⊢
+  generalize (condNormalize c x y).2.2 = y1 at h ⊢
+  cases ht : isTruthy c1 with
+  | some b => cases b <;> simpa [ht] using h
+  | none =>
+    simp only [ht] at h ⊢
+    by_cases h1 : orSelfGuard c1 x1 y1 = true
+    · simpa [h1] using h
+    · by_cases h2 : andSelfGuard c1 x1 y1 = true
+      · simpa [h1, h2] using h
+      · by_cases h3 : isEqualExpr x1 y1 = true
+        · simpa [h1, h2, h3] using h
+        · simp only [h1, h2, h3, Bool.false_eq_true, if_false] at h ⊢
+          cases hn : (if v20 = true then toNullish c1 x1 y1 else Nullish.no) with
+          | unmodelled => simp [hn] at h
+          | yes e => simpa [hn] using h
+          | no =>
+            simp only [hn] at h ⊢
+            cases hm : callMerge c1 x1 y1 with
+            | some e =>
+              simp only [hm] at h ⊢
+              by_cases hs : hasSideEffects c1 = true
+              · simp [hs] at h
+              · simpa [hs] using h
+            | none => simpa [hm] using h
+
 end Verif.Proofs.JsNullishSound
